@@ -918,6 +918,9 @@ func effHost(c SSOCase) string {
 	if host == "" {
 		host = defHost
 	}
+	if host == obs.NoHost {
+		host = ""
+	}
 	if c.Spec.IdP.IssuerMode == "forwarded" {
 		for _, h := range c.Headers {
 			if strings.EqualFold(h[0], "Forwarded") {
